@@ -195,6 +195,25 @@ theorem probing_error_classes (b : Nat → Nat) (p : LParsed) :
     | false => simp [buildCheck, hr, hf]
     | true => simp [buildCheck, hr, hf]
 
+/-- accepted by the probing builder ⇒ every middle table keeps at least one empty bucket.  This is what makes the linear
+probe of `Find` / `FindOrInsert` terminate on absent keys (C20's probing theorems assume a free bucket); a capacity test that
+lets a table fill completely (seeded change C10-1) breaks exactly this. -/
+theorem probing_accept_has_empty_bucket (b : Nat → Nat) (p : LParsed) (h : buildCheck .probing b p = .ok ()) :
+    ∀ k, k < p.order → 2 ≤ k →
+      ((probingRun p).1.filter (fun g => g.length == k)).length < b (p.counts.getD (k - 1) 0) := by
+  intro k hk h2
+  have hnf := ((probing_error_classes b p).2.2.mp h).2
+  apply Nat.lt_of_not_le
+  intro hle
+  have hf := (probingFull_iff b p (probingRun p).1).mpr ⟨k, hk, h2, hle⟩
+  rw [hf] at hnf
+  exact absurd hnf (by simp)
+
+/-- the bucket count the loader computes always exceeds the announced entry count (for every multiplier bit pattern) -/
+theorem probingBuckets_gt (multBits n : Nat) : n < KV.Binary.probingBuckets multBits n := by
+  unfold KV.Binary.probingBuckets
+  omega
+
 /-- one step of the probing builder: the key table only grows, and afterwards it contains every reversed prefix
 (length ≥ 2, shorter than the n-gram) of the n-gram just read — the hallucinated blanks -/
 theorem findLower_mono (g : List Word) : ∀ (k : Nat) (keys : List (List Word)) (x : List Word),
